@@ -525,8 +525,8 @@ class Lower:
         l, r = self.expr(n.operand1), self.expr(n.operand2)
         vals = []
         for x in (l, r):
-            if isinstance(x, ast.BoolOp) and type(x.op) is type(op) and x is l:
-                vals.extend(x.values)
+            if isinstance(x, ast.BoolOp) and type(x.op) is type(op):
+                vals.extend(x.values)     # `a and b and c` is one n-ary operation, as in Python's ast
             else:
                 vals.append(x)
         return ast.BoolOp(op=op, values=vals)
